@@ -465,8 +465,12 @@ def main():
     if evidence['coverage']['discharged'] == 0:
         # schema: a proof-level file with its own keys needs discharged >= 1; fall back to the generic counts
         evidence['coverage']['discharged_count'] = evidence['coverage'].pop('discharged')
-    os.makedirs(os.path.join(kv.VERIF, 'evidence'), exist_ok=True)
-    epath = os.path.join(kv.VERIF, 'evidence', prop_id + '.json')
+    # evidence/ holds what was observed on the repository itself; runs against another tree (self-test
+    # mutants, seeded changes: VERIF_REPO) write theirs under build/ so that they never replace it
+    edir = os.path.join(kv.VERIF, 'evidence') if os.path.realpath(kv.REPO) == '/repo' \
+        else os.path.join(kv.BUILD, 'evidence-other-tree')
+    os.makedirs(edir, exist_ok=True)
+    epath = os.path.join(edir, prop_id + '.json')
     with open(epath, 'w') as f:
         json.dump(evidence, f, indent=1, default=str)
     ok, msg = validate_evidence(epath)
